@@ -386,8 +386,7 @@ impl Compiled for AST {
 
             AST::Array { size, value } => {
                 match value.deref() {
-                    AST::Boolean(_) | AST::Integer(_) | AST::Null |
-                    AST::AccessVariable { name:_ } | AST::AccessField { object:_, field:_ } => {
+                    value if is_simple_initializer(value) => {
                         size.deref().compile_into(program, active_buffer, global_environment, current_frame, true)?;
                         value.deref().compile_into(program, active_buffer, global_environment, current_frame, true)?;
                         active_buffer.emit(OpCode::Array);
@@ -660,6 +659,15 @@ fn environment_of<'a>(current_frame: &'a mut Frame, global_environment: &'a mut 
     match current_frame {
         Frame::Local(environment) => environment,
         Frame::Top => global_environment,
+    }
+}
+
+// Initializers that have no effects and can be evaluated once for the whole array.
+fn is_simple_initializer(ast: &AST) -> bool {
+    match ast {
+        AST::Boolean(_) | AST::Integer(_) | AST::Null | AST::AccessVariable { name:_ } => true,
+        AST::AccessField { object, field:_ } => is_simple_initializer(object.deref()),
+        _ => false,
     }
 }
 
